@@ -176,6 +176,40 @@ def rule_r3(ctx) -> List[R.Inst]:
         return [R.undec(rid, "named-samples", file, fn.node.lineno, "loop over the named samples not found")]
     var = lp.target.id if isinstance(lp.target, ast.Name) else "?"
     insts = []
+    # the named samples of EVERY source time must reach that loop: no early exit from the per-time body before it
+    outer = None
+    for n in walk_no_nested(fn.node):
+        if isinstance(n, ast.For) and n is not lp and any(x is lp for x in ast.walk(n)):
+            if outer is None or any(x is n for x in ast.walk(outer)) is False:
+                outer = n if outer is None else outer
+    chain = []
+    cur = outer
+    while cur is not None and cur is not lp:
+        chain.append(cur)
+        nxt = None
+        for st in cur.body:
+            if st is lp or any(x is lp for x in ast.walk(st)):
+                nxt = st if isinstance(st, ast.For) else None
+                break
+        cur = nxt
+    skipped = None
+    for loop_ in chain:
+        pre = []
+        for st in loop_.body:
+            if st is lp or any(x is lp for x in ast.walk(st)):
+                break
+            pre.append(st)
+        for c, sts, ex in _branch_paths([p for p in pre if not isinstance(p, (ast.For, ast.While))]):
+            if ex != "fall":
+                skipped = (loop_, c, ex)
+    if skipped:
+        loop_, c, ex = skipped
+        ctxt = " and ".join(("" if pol else "not ") + f"({unparse(t)})" for t, pol in c) or "always"
+        insts.append(R.viol(rid, "reach-named-loop", file, loop_.lineno,
+                            f"when [{ctxt}] the per-time body exits early ({ex}) before the named samples of that time are handled: they "
+                            f"reach neither a target note nor the event samples", construct=f"per-time body: {ctxt} -> {ex}"))
+    else:
+        insts.append(R.ok(rid, "reach-named-loop", file, (outer or lp).lineno, idiom="every source time reaches the named-sample loop"))
     for conds, stmts, ex in _branch_paths(lp.body):
         cond_txt = " and ".join(("" if pol else "not ") + f"({unparse(t)})" for t, pol in conds) or "always"
         key = f"path:{cond_txt[:60]}"
@@ -241,12 +275,17 @@ def rule_r4(ctx) -> List[R.Inst]:
     for n in walk_no_nested(rfn.node):
         if isinstance(n, ast.For) and isinstance(n.target, ast.Name) and isinstance(n.iter, (ast.Tuple, ast.List)):
             loopvars[n.target.id] = {x.attr for x in n.iter.elts if isinstance(x, ast.Attribute) and unparse(x.value) == "self"}
+    loops_of = {n.target.id: n for n in walk_no_nested(rfn.node) if isinstance(n, ast.For) and isinstance(n.target, ast.Name)}
+    last_of = {n.target.id: {n.iter.elts[-1].attr} for n in loops_of.values() if isinstance(n.iter, (ast.Tuple, ast.List)) and n.iter.elts
+               and isinstance(n.iter.elts[-1], ast.Attribute)}
     for n in walk_no_nested(rfn.node):
         if isinstance(n, ast.Assign) and isinstance(n.targets[0], ast.Attribute) and unparse(n) in real_sites:
             recv = n.targets[0].value
             lists = set()
             if isinstance(recv, ast.Name) and recv.id in loopvars:
-                lists = loopvars[recv.id]
+                inside = any(x is n for x in ast.walk(loops_of[recv.id])) if recv.id in loops_of else False
+                # after the loop the variable still names the LAST list only
+                lists = loopvars[recv.id] if inside else last_of.get(recv.id, set())
             elif isinstance(recv, ast.Attribute) and unparse(recv.value) == "self":
                 lists = {recv.attr}
             reset_cols.setdefault(n.targets[0].attr, set()).update(lists)
@@ -276,6 +315,45 @@ def rule_r4(ctx) -> List[R.Inst]:
                                 f"sound the target had and the source lacks survives in the result",
                                 construct=f"{c} of the result frame is never killed"))
     return insts
+
+
+def rule_r6(ctx) -> List[R.Inst]:
+    """same-time matching: source and target times are compared as they are (no one-sided rounding / casting)"""
+    M = ctx.M
+    rid = "C18.R6"
+    fn = _fn(ctx)
+    file = M.mods[fn.mod].rel
+    src_p, tgt_p = params_of(fn.node)[:2]
+    frames = _frames(fn)
+    side = {nm: ("source" if _notes_source(a) == src_p else "target" if _notes_source(a) == tgt_p else None) for nm, a in frames.items()}
+    xf: Dict[str, List[Tuple[str, ast.AST]]] = {"source": [], "target": []}
+    for n in walk_no_nested(fn.node):
+        if not isinstance(n, ast.Assign):
+            continue
+        t = n.targets[0]
+        nm = t.id if isinstance(t, ast.Name) else (t.value.id if isinstance(t, ast.Subscript) and isinstance(t.value, ast.Name) else None)
+        if nm not in side or side[nm] is None:
+            continue
+        v = n.value
+        # frame-level: df.astype({'offset': ...}) / df.round(...) ; column-level: df['offset'] = <anything but itself>
+        for c in ast.walk(v):
+            if isinstance(c, ast.Call) and call_name(c) in ("astype", "round") and isinstance(t, ast.Name):
+                txt = unparse(c)
+                if "offset" in txt or (call_name(c) == "round" and not c.args) or (call_name(c) == "astype" and c.args and
+                                                                                   not isinstance(c.args[0], (ast.Dict, ast.Call))):
+                    xf[side[nm]].append((call_name(c), n))
+        if isinstance(t, ast.Subscript) and C.const_str(t.slice) == "offset":
+            xf[side[nm]].append(("assign", n))
+    a, b = [k for k, _ in xf["source"]], [k for k, _ in xf["target"]]
+    if a == b:
+        return [R.ok(rid, "same-time-key", file, fn.node.lineno,
+                     idiom="offsets of both charts are compared as stored" if not a else f"the same transforms {a} on both sides")]
+    which = "source" if len(a) > len(b) else "target"
+    node = xf[which][0][1]
+    return [R.viol(rid, "same-time-key", file, node.lineno,
+                   f"the {which} offsets are transformed ({unparse(node)[:80]}) but the other chart's are not: sounds are matched to "
+                   f"notes by exact equality of time, so charts with fractional times (rate-changed, converted) no longer match at all",
+                   construct=f"one-sided offset transform on the {which}: {unparse(node)[:100]}")]
 
 
 def rule_r5(ctx) -> List[R.Inst]:
@@ -334,8 +412,9 @@ def rule_r5(ctx) -> List[R.Inst]:
 SPECS = [
     RuleSpec("C18.R1", rule_r1, 3, "A3", "both inputs untouched; result rooted in a deep copy"),
     RuleSpec("C18.R2", rule_r2, 5, "A2", "result frame = target's notes; only sound columns stored; rows kept; unique labels; split back"),
-    RuleSpec("C18.R3", rule_r3, 3, "A8", "every named sample reaches exactly one sink on every path, with no early exit"),
+    RuleSpec("C18.R3", rule_r3, 4, "A8", "every named sample reaches exactly one sink on every path, with no early exit"),
     RuleSpec("C18.R4", rule_r4, 5, "A2", "sound columns of the result are cleared before slotting"),
+    RuleSpec("C18.R6", rule_r6, 1, "A1", "source and target times are matched as stored (no one-sided transform)"),
     RuleSpec("C18.R5", rule_r5, 3, "A2", "bit tests on sound columns act on integer data for every history of the chart"),
 ]
 
